@@ -114,6 +114,7 @@ func checkC02(c *Ctx) {
 	ruleTextResume(c)
 	ruleParaRestStart(c)
 	ruleCloseAtLineStart(c)
+	ruleCollectBound(c)
 }
 
 // ROOT-CUT: the Source of a root block ends exactly where the span of the block it carries ends.
